@@ -1,6 +1,7 @@
 pub mod c01;
 pub mod c02;
 pub mod c03;
+pub mod c04;
 pub mod c16;
 pub mod c17;
 pub mod c18;
@@ -22,6 +23,7 @@ pub fn dispatch(id: &str, tier: Tier, replay_file: Option<&Path>) -> i32 {
         "C01" => go!(c01),
         "C02" => go!(c02),
         "C03" => go!(c03),
+        "C04" => go!(c04),
         "C16" => go!(c16),
         "C17" => go!(c17),
         "C18" => go!(c18),
